@@ -429,6 +429,13 @@ def dispatch (j : Json) : Except String Json := do
   | "reflect" => opReflect j
   | "cpp" => opCpp j
   | "frame" => opFrame j
+  | "utf8" => do
+    -- which byte strings are texts: `utf8Valid` on each of the given byte lists
+    let items ← j.getObjValAs? (Array Json) "items"
+    let outs ← items.toList.mapM fun it => do
+      let bs ← J.natList it
+      pure (Json.bool (utf8Valid bs))
+    return Json.mkObj [("valid", Json.arr outs.toArray)]
   | _ => throw s!"unknown op {op}"
 
 partial def loop (hin : IO.FS.Stream) (hout : IO.FS.Stream) : IO Unit := do
